@@ -477,6 +477,19 @@ pub fn main(args: &Args) -> i32 {
     if let Some(p) = &args.replay {
         return replay(p);
     }
+    if args.extra.iter().any(|a| a == "--confirm-on-daemon") {
+        // development aid: reproduce finding C36-F1 against the real dbus-daemon
+        return match fakebus::audit::reacquire_after_replacement() {
+            Ok(s) => {
+                println!("{s}");
+                0
+            }
+            Err(e) => {
+                println!("{e:?}");
+                2
+            }
+        };
+    }
     if args.extra.iter().any(|a| a == "--audit-only") {
         // development aid: run only the fake-bus audit against dbus-daemon and print the result
         let depth = args.tier.pick(3, 4);
